@@ -312,9 +312,16 @@ def mon_c11(h, obs):
             hits.append(Hit(f"C11/{_cls(mask)}",
                             f"after a crash with durable writes {mask} in block {hh}: chain index at {c}, state at {s}, blockfile has {b} blocks, head {head}", op))
             break
-        if sk is not None and c == s and sk != (str(c) if c > 0 else "-"):
-            hits.append(Hit("C11/state-content-ahead-of-state-height" if sk.isdigit() and int(sk) > c else "C11/state-content-not-at-height",
-                            f"after a crash ({op.split()[0]} {mask}) in block {hh} the ledger reopens at height {c} but the state store holds the data of block {sk}", op))
+        skh, _, skb = (sk or "").partition("/")
+        if sk is not None and c == s and skh != (str(c) if c > 0 else "-"):
+            hits.append(Hit("C11/state-content-ahead-of-state-height" if skh.isdigit() and int(skh) > c else "C11/state-content-not-at-height",
+                            f"after a crash ({op.split()[0]} {mask}) in block {hh} the ledger reopens at height {c} but the state store holds the data of block {skh}", op))
+            break
+        # the account record: block 1 and every third block set the balance of a0 to 1000 + height, the others only touch its storage
+        want_bal = max([1000 + x for x in range(1, c + 1) if x == 1 or x % 3 == 0], default=0)
+        if sk is not None and skb != "" and c == s and skb != str(want_bal):
+            hits.append(Hit("C11/account-record-not-at-height",
+                            f"after a crash ({op.split()[0]} {mask}) in block {hh} the ledger reopens at height {c} with balance {skb} of a0, the balance as of that height is {want_bal}", op))
             break
         # continuation
         rest_obs = obs[i + 1:]
